@@ -211,6 +211,8 @@ HAND = [
     [P("In", "A"), P("In", "B", 2, "Z"), P("Out", "Y"), T("t1", "A B Y\n0 0 0\n"), T("t2", "B B_out\n1 1\n")],
     # duplicate labels
     [P("In", "A", 1, 1), P("In", "A", 2, 3), P("Out", "Y"), T("t", "A A_out Y\n0 0 0\n")],
+    # an element whose name is empty is no pin and no test
+    [P("In", "A"), P("", "GHOST", 4, 1), P("Out", "Y"), dict(kind="", label="t0", bits=None, default=None), T("t", "A Y\n0 0\n")],
     # labels that read like attribute keys or element names
     [P("In", "Bits", 4, 1), P("In", "Label", 2), P("Out", "InDefault", 3), P("Out", "Testdata"), P("Clock", "In"), P("Out", "Out", 2),
      T("Testdata", "Bits Label InDefault Testdata\n0 0 0 0\n"), T("Label", "Bits InDefault\n1 1\n"), T("Bits", "In Out\nC 0\n")],
